@@ -32,6 +32,13 @@ CHECKS = {
         note=BT + " Pseudo-determinant environments are chosen so that det(A^T A) is a perfect square. Compound differential operators are covered with the derivative checks.",
         design_ref="DESIGN.md §3 C06",
     ),
+    "C07": dict(
+        engine="CellGeom",
+        technique="TLC exhaustive enumeration of affine simplex cells over spec/CellGeom.tla with oracle self-consistency invariants and a printed oracle table + replay of every cell through Mesh, Q(mesh), the real apply_geometry_lowering (8 variants) and the denotational evaluator under the low-level terminals a form compiler supplies, with exact (value^2, sign) comparison",
+        text="For every non-degenerate interval, triangle and tetrahedron with integer vertices in the stated boxes (modulo translation, both orientations, every facet and ridge) each geometric quantity is defined from the vertices only: J, K as Moore-Penrose inverse, detJ, volume from the Gram determinant, circumradius from the circumcentre solve, diameter, min/max cell and facet edge lengths, facet area, facet normal, cell normal, facet/ridge Jacobians with inverses and determinants, x = x0 + J X. TLC checks 19 characterising theorems on every cell and prints the values; the lowered expressions of the real code for 21 quantity classes are evaluated for the same cell and must have exactly that value (exact when rational, within 1e-30 when a square root is irrational). Thorough covers complete boxes (about 10^5 cells), quick seed-chosen shards (about 600 cells).",
+        note="Trusted: the definitions and numbering conventions in CellGeom.tla (UFC/FIAT/basix; detJ on immersed cells = CellOrientation*sqrt(det J^T J)); vf/sem.py with 256-bit square roots; the Fraction transcription of the oracle and of the supplied terminals, validated against TLC on every cell. Affine P1 simplices only; quantities ufl documents as unsupported for a cell type are skipped.",
+        design_ref="DESIGN.md §3 C07",
+    ),
     "C08": dict(
         engine="Pullback",
         technique="TLC exhaustive enumeration of (affine cell map, element) pairs in spec/Pullback.tla (textbook push-forward formulas over CQ rationals; invariants: K Moore-Penrose inverse, detJ^2=det(J^T J), shape algebra and flattening bijection, covariant/contravariant duality, double Piola = single Piola per index) + replay of every pair on real ufl: apply_function_pullbacks / pullback.apply results evaluated by vf/sem.py under the same map and reference values with exact comparison of every physical component and of the result shape",
@@ -67,6 +74,20 @@ CHECKS = {
         note=BT + " Images are terminals and simple combinations of terminals; replacement below derivative and restriction operators is exercised in the derivative/restriction checks.",
         design_ref="DESIGN.md §3 C21",
     ),
+    "C22": dict(
+        engine="Parts",
+        technique="TLA+/TLC on spec/Parts.tla (block structure of the point-assembled tensors over mixed spaces) + replay conformance of extract_blocks(form), (form, i, j), (form, i) with block-wise assembly, zero padding and partition sums",
+        text="Blocks partition the tensor, are local to their rows/columns and have shape k x k' (bilinear) or k (linear) for every pure bilinear/linear form in the bound (TLC invariants); the real extract_blocks is called in all three calling conventions with both settings of replace_argument on MixedElement (2-3 sub-elements, scalar and vector) and MixedFunctionSpace (2-3 spaces) forms; each block is assembled on its own sub-space arguments, zero-padded and summed per integral key and must reproduce the assembled original. Quick 1.6k forms, thorough 23.6k forms / 233k block comparisons.",
+        note="Trusted: as C16; None or empty blocks count as zero; a mixed test space with an ordinary trial space counts as a k x 1 structure.",
+        design_ref="DESIGN.md §3 C22",
+    ),
+    "C23": dict(
+        engine="UFLBuild",
+        technique="TLC enumeration of UFLBuild programs ending in the verdict-carrying actions cmp_check / remove_complex of spec/CplxTypes.tla (the checker's type lattice transcribed handler by handler) with invariants TypeSound, CheckSound, WrapNeutral, RemoveNeutral + replay through do_comparison_check / remove_complex_nodes comparing accept/raise, shape, free indices and value, plus model-independent checks on the real result",
+        text="TLC proves on every enumerated program (abs/real/imag/conj/sqrt/pow/mul/add/div/neg, inner/outer/dot/index incl. repeated indices, variable, comparisons, and/or/not, conditional, max/min/sign, real and complex literals, complex- and real-typed terminals) that a non-complex type implies a real value in the real-data and in the generic complex environment, that accepted integrands order only real values, and that Real-wrapping and conj/real removal change no value. Every program is replayed: verdict equal; result value equal to the prediction; after acceptance every ordering/min/max operand is real-valued in the complex environment; real mode never accepts Imag or a complex literal. Quick 7k programs, thorough 76k.",
+        note="Trusted: UFLBuild.tla/CQ.tla and vf/sem.py; the documented lattice (arguments and geometric quantities real, coefficients and constants may be complex); two environments with genericity standing for 'can be complex'. Rejecting an always-real comparison is incompleteness (counted), not a violation. A hang is judged by a wall-clock guard.",
+        design_ref="DESIGN.md §3 C23",
+    ),
     "C24": dict(
         engine="UFLBuild",
         technique="TLC enumeration of UFLBuild programs ending in the action point_eval + replay: the real object is called as expr(x, mapping, component) and the returned number compared with the predicted value",
@@ -88,12 +109,33 @@ CHECKS = {
         note="Trusted: the abstraction in EqShare.tla; the probing export of the projections; the harness's element class and eval namespace. Round trips are demanded for Expr and Form objects (base-form classes FormSum/Action/Adjoint/Matrix/ZeroBaseForm are recorded as notes). Not exhaustive beyond the stated bounds.",
         design_ref="DESIGN.md §3 C13",
     ),
+    "C14": dict(
+        engine="Arity",
+        technique="TLC model checking (exhaustive per slice + seeded -simulate) of spec/Arity.tla: terms built with the as-coded handler arities of spec/ArityRules.tla and exact Gaussian-rational values in a linearity experiment; invariants Accepts => Multilinear and NonlinearOrAffine => not Accepts; every enumerated term replayed through the public API into check_integrand_arity (real and complex mode) and judged on the real lowered object evaluated exactly; real verdicts re-derived by spec/ArityTrace.tla on the real DAG",
+        text="ArityChecker is transcribed one operator per handler; terms over {test/trial function scalar or vector, grad, reference value/grad, coefficients, geometry, literals, zero} with sums, products, division, power, abs, conj/real/imag, indexing, index sums, component and list tensors, conditionals, math functions, restrictions, variables (depth <=3 exhaustive, <=6 random) carry both the as-coded arity and the semantic class decided by exact evaluation at 0, 2v, -v, w, v+w (and iv in complex mode); TLC shows the intended list-tensor rule sound and exhibits the counterexample of the pinned rule. Each term (7.5k quick, 81k thorough) is built on real ufl, lowered, checked; accepted => multilinear in each argument (antilinear in the test function in complex mode) and affine/nonlinear => rejected; a sample goes through compute_form_data.",
+        note="Trusted: vf/sem.py (cross-checked against TLC's semantic classes on every term); linearity decided on 2 groups of generic exact samples; undefined values counted, not judged; rejecting a multilinear integrand is incompleteness (counted), not a violation.",
+        design_ref="DESIGN.md §3 C14",
+    ),
     "C15": dict(
         engine="Grouping",
         technique="TLC exhaustive check of spec/Grouping.tla (step-by-step model of group_form_integrals/build_integral_data against the independent meaning Total) + replay of every TLC-enumerated (form, append option) on real ufl with exact comparison of projected integral data and per-subdomain totals + metadata-pair injectivity binding",
         text="All forms of the bounded universes (<=4 integrals over ids 1, 2, (1,2), everywhere; 2-3 metadata; 1-2 integral types; 1-2 domains; coordinate derivative none/v1/v2; both append options) are enumerated by TLC; the invariants (totals preserved after every step, no cross-metadata merge, nothing lost or duplicated) hold for the injective canonicaliser; every enumerated line and a seeded sample of the product universe is executed on the real code and must equal the prediction and Total; 33 real metadata pairs (ints, floats, strings, nested dicts, arrays incl. >1000 entries and 9th-digit differences) must merge iff equal.",
         note="Trusted: Total/Explicit in Grouping.tla; the projection of integrands to atom bags; metadata deep equality. A TypeError raised when one metadata key holds values of different kinds is a refusal outside C15 (note). Exhaustive for the stated slices; the 4-integral product universe is sampled.",
         design_ref="DESIGN.md §3 C15",
+    ),
+    "C16": dict(
+        engine="Parts",
+        technique="TLA+/TLC on spec/Parts.tla (PartExtracter and the form operators transcribed as coded vs. the constant/linear/bilinear decomposition of the point-assembled form) + replay conformance: every behaviour rebuilt in real ufl, outputs assembled at all unit-vector points and compared with the model and with the algebraic identities",
+        text="PartExtracter, FormSplitter and lhs/rhs/system/functional/action/adjoint/energy_norm, transcribed handler by handler, equal the constant/linear/bilinear decomposition of the point-assembled form for every term in the bound (TLC invariants); every behaviour is rebuilt in real ufl (scalar, vector, MixedElement and MixedFunctionSpace arguments, one or two integrals), outputs assembled at all unit-vector points with vf/sem.py and compared with the model and with the identities computed from the real input (F = lhs - rhs + functional also at a generic point; action = substitution; adjoint = conjugate transpose; energy_norm = a(w,w)). Quick 5k forms / 15k behaviours exhaustive; thorough 45k forms / 121k behaviours.",
+        note="Trusted: vf/sem.py (cross-checked against TLC's table on every input form), CQ arithmetic; arguments real-valued; form class: every monomial of degree (1,1), (1,0) or (0,0); no grad/restrictions/averages. Known finding (open): adjoint of a MixedFunctionSpace form keeps off-diagonal block labels (the repository's own test encodes it).",
+        design_ref="DESIGN.md §3 C16",
+    ),
+    "C17": dict(
+        engine="Restrict",
+        technique="TLC enumeration (exhaustive per slice + -simulate) of interior-facet integrands of spec/Restrict.tla with two-sided meaning M and the propagation rules P transcribed handler by handler; every (term, mode) replayed on real apply_restrictions (as FormData calls it) and through compute_form_data on dS forms, comparing verdict, exact two-sided values (vf/sem.py) and result structure",
+        text="TLC proves, for every term in the bound (H1/non-H1 coefficients, arguments, x, n, cell/facet quantities, constants, literals; grad/reference_value of terminals, restrictions, variable, arithmetic, dot, indexing, conditional, jump, avg; affine and P2-coordinate triangle mesh; default restrictions on/off), that the rules as coded preserve the meaning of valid integrands in all admissible two-sided environments, that output restrictions sit directly on terminals exactly once, and that double and missing restrictions are rejected; each term (9k quick, 134k thorough) is built on real ufl and the real pass must agree in verdict, value (input = output = prediction) and structure; the rejection requirement is demanded of compute_form_data in both default modes.",
+        note="Trusted: CQ.tla; vf/sem.py (bound on every valid term by TLC's predicted value); the kind classification of terminals (element in H1); admissible-environment assumptions (H1 coefficients, x, facet quantities, constants continuous; n flips only on the affine gdim=tdim mesh; gradients, arguments, cell quantities independent).",
+        design_ref="DESIGN.md §3 C17",
     ),
     "C18": dict(
         engine="Degree",
